@@ -41,7 +41,8 @@ class AggBase(DfContract):
     agg = 'Sum'
     method = 'on_new'
     vector = False
-    props = ['C06', 'C07', 'C12']
+    # C11: expanding() aggregations run on these same accumulators (window_accumulator with diff_expanding)
+    props = ['C06', 'C07', 'C11', 'C12']
     inline = ('Var._compute_result',)
 
     def __init__(self):
@@ -90,9 +91,9 @@ class AggOnNew(AggBase):
     def clauses(self):
         rows = 'rows(Seen, new)'
         st = state_text(self.agg, rows)
-        return [Clause('C06.state_tracks_all_rows_seen', ['C06', 'C12'], text='result[0] == ' + st,
+        return [Clause('C06.state_tracks_all_rows_seen', ['C06', 'C11', 'C12'], text='result[0] == ' + st,
                        note='state == (S, C, ...)(Seen ++ new) for every batch, including empty ones'),
-                Clause('C06.value_equals_pandas_on_the_prefix', ['C06'], text=result_clause(self.agg, rows),
+                Clause('C06.value_equals_pandas_on_the_prefix', ['C06', 'C11'], text=result_clause(self.agg, rows),
                        note='the emitted value equals the pandas aggregation over the concatenation of all batches so far')]
 
 
@@ -159,7 +160,45 @@ def _mk(base, agg, vector):
     return type(name, (base,), {'agg': agg, 'vector': vector})
 
 
-ALL = []
+class DfLemmas(AggBase):
+    """L-NAN by induction over the rows: C(t) == 0 ==> S(t) == 0 and Q(t) == 0."""
+    qual = 'Sum.on_new'
+    props = ['C06', 'C07', 'C11', 'C12']
+
+    def __init__(self):
+        AggBase.__init__(self)
+        self.qual = 'Sum.on_new'
+        self.name = 'lemma L-NAN (induction over the rows of a batch)'
+
+    def verify(self, index, props=None, want_models=True):
+        from pyvc.contract import Result
+        from .df_common import SeqRowS, f_c1
+        import time
+        P = z3.Const('lem_rows', SeqRowS)
+        r = z3.Const('lem_row', sym.Row)
+        Pp = z3.Concat(P, z3.Unit(r))
+        E = z3.Empty(SeqRowS)
+
+        def lem(t):
+            return z3.Implies(C(t) == 0, z3.And(S(t) == 0, Q(t) == 0))
+        goals = [('L-NAN.base', [], lem(E)), ('L-NAN.step', [lem(P), C(P) >= 0, f_c1(r) >= 0], lem(Pp))]
+        res = []
+        for name, assm, goal in goals:
+            t0 = time.time()
+            fs = list(assm) + [z3.Not(goal)]
+            ax = sym._unfold_only(fs)
+            s = z3.Solver()
+            s.set('timeout', 10000)
+            s.add(*fs)
+            s.add(*ax)
+            rr = s.check()
+            res.append(Result('%s/%s' % (self.name, name), self.props, 'proved' if rr == z3.unsat else ('failed' if rr == z3.sat else 'unknown'),
+                              'z3', time.time() - t0, path='lemma', contract=self))
+        self.outcomes = []
+        return res, {'paths': 0, 'seconds': 0, 'branch_checks': 0, 'outcomes': [], 'dropped': [], 'cover': []}
+
+
+ALL = [DfLemmas]
 for _agg in ['Sum', 'Count', 'Size', 'Mean', 'Var']:
     for _vec in (False, True):
         for _base in (AggInitial, AggOnNew, AggOnOld, AccumulatorFirst):
